@@ -70,7 +70,7 @@ def prune_numba_caches(keep_tag):
             shutil.rmtree(os.path.join(CACHE, name), ignore_errors=True)
 
 
-def ensure_deps(python=sys.executable, verbose=False):
+def ensure_deps(python=sys.executable, verbose=False, modules=("hypothesis", "jsonschema")):
     """Install hypothesis / jsonschema from the offline wheelhouse if they are missing.
 
     A restore brings back committed files only, so this is repeated lazily by the runner
@@ -80,10 +80,10 @@ def ensure_deps(python=sys.executable, verbose=False):
     code = (
         "import sys; sys.path.append(%r)\n"
         "missing=[]\n"
-        "for m in ('hypothesis','jsonschema'):\n"
+        "for m in %r:\n"
         "    try: __import__(m)\n"
         "    except Exception: missing.append(m)\n"
-        "print(' '.join(missing))\n" % DEPS
+        "print(' '.join(missing))\n" % (DEPS, tuple(modules))
     )
     out = subprocess.run([python, "-c", code], capture_output=True, text=True)
     missing = out.stdout.split()
